@@ -58,8 +58,14 @@ func c02r1a(c *Ctx) {
 	for i, fl := range flushes {
 		if len(fl.Expr.Args) == 2 {
 			if b, ok := prog.ConstBool(info, fl.Expr.Args[1]); ok && b {
-				forced = &flushes[i]
-				break
+				// the forced flush of the head chunk (chunk argument negative) — or, failing that, the first forced flush
+				if v, isC := prog.ConstInt(info, fl.Expr.Args[0]); isC && v < 0 {
+					forced = &flushes[i]
+					break
+				}
+				if forced == nil {
+					forced = &flushes[i]
+				}
 			}
 		}
 	}
